@@ -371,6 +371,7 @@ def main():
                                    "rng_uses": [(u["file"].split("/")[-1], u["line"], u["call"], u["guard"]) for u in ex["uses"]],
                                    "bindings": ex["bindings"], "assigns": [(a["owner"], a["guard"], a["src"]) for a in ex["assigns"]],
                                    "mutable_defaults": [(m["func"], m["param"], m["usage"], m["calls"], m["explicit"]) for m in ex["mdefaults"]],
+                                   "x0_sites": [(x["file"].split("/")[-1], x["line"], x["callee"], x["kind"]) for x in ex["x0_sites"]],
                                    "hourly": ex["hourly"], "algorithms": ex["algorithms"]}})
         run.dist("translator", "files=%d sites=%d uses=%d" % (len(ex["files"]), len(ex["sites"]), len(ex["uses"])))
     except translate_repro.TranslatorError as e:
@@ -423,7 +424,8 @@ def main():
         pools = r["info"].get("pools")
         if j["imports"] == "opendsm-first":
             run.dist("pool sizes with the package imported before numpy, environment says %d" % j["threads"], pools)
-        elif pools is not None and any(n != j["threads"] for _, n in pools):
+        elif pools is not None and any((n > 1) != (j["threads"] > 1) for _, n in pools):
+            # (a BLAS build may cap the pool at the number of cores; what matters is single- vs multi-threaded)
             run.corr_failures.append({"stream": "histories", "case": {"label": j["label"], "threads": j["threads"]},
                                       "impl": pools, "model": "pool size = environment of the process"})
     # ---- step 3: oracle
